@@ -618,4 +618,137 @@ theorem gen_Writer_writeTransitionSome_eq (st : WS) (previous value : Instant) :
     simp only [hca, if_neg hf]
     rfl
 
+/-! ## the zone pieces writing themselves: `_ZoneYearOffset._write`, `_ZoneRecurrence._write`, `_StandardDaylightAlternatingMap._write` -/
+
+theorem gen_YearOffset_mode_eq (y : ZoneYearOffset) : Gen.C14W.YearOffset.mode y = (y.mode.toNat : Int) := rfl
+theorem gen_YearOffset_advanceDayOfWeek_eq (y : ZoneYearOffset) : Gen.C14W.YearOffset.advanceDayOfWeek y = y.advance := rfl
+theorem gen_YearOffset_timeOfDay_eq (y : ZoneYearOffset) : Gen.C14W.YearOffset.timeOfDay y = y.timeOfDay := rfl
+theorem gen_Recurrence_name_eq (z : ZoneRecurrence) : Gen.C14W.Recurrence.name z = z.name := rfl
+theorem gen_Recurrence_savings_eq (z : ZoneRecurrence) : Gen.C14W.Recurrence.savings z = z.savings := rfl
+theorem gen_Recurrence_yearOffset_eq (z : ZoneRecurrence) : Gen.C14W.Recurrence.yearOffset z = z.yearOffset := rfl
+theorem gen_Recurrence_fromYear_eq (z : ZoneRecurrence) : Gen.C14W.Recurrence.fromYear z = z.fromYear := rfl
+theorem gen_Recurrence_toYear_eq (z : ZoneRecurrence) : Gen.C14W.Recurrence.toYear z = z.toYear := rfl
+
+/-- the flag byte: the fields do not overlap for a day of week in 0..7 (what the constructor admits) -/
+theorem flags_eq (m : TransitionMode) (d : Int) (a b : Bool) (h0 : 0 ≤ d) (h7 : d ≤ 7) :
+    Gen.pyOr (Gen.pyOr (Gen.pyOr (m.toInt * 2 ^ 5) (d * 2 ^ 2)) (if a = true then 2 else 0)) (if b = true then 1 else 0) =
+      (m.toNat : Int) * 32 + d * 4 + (if a then 2 else 0) + (if b then 1 else 0) := by
+  have hd : d = 0 ∨ d = 1 ∨ d = 2 ∨ d = 3 ∨ d = 4 ∨ d = 5 ∨ d = 6 ∨ d = 7 := by omega
+  rcases hd with rfl | rfl | rfl | rfl | rfl | rfl | rfl | rfl <;> cases m <;> cases a <;> cases b <;> decide
+
+/-- the same, in the form the generated `_write` has it (through the translated property getters) -/
+theorem flags_gen (y : ZoneYearOffset) (h0 : 0 ≤ y.dayOfWeek) (h7 : y.dayOfWeek ≤ 7) :
+    Gen.pyOr (Gen.pyOr (Gen.pyOr ((Gen.C14W.YearOffset.mode y) * 2 ^ 5) (y.dayOfWeek * 2 ^ 2)) (if (Gen.C14W.YearOffset.advanceDayOfWeek y) = true then 2 else 0))
+        (if y.addDay = true then 1 else 0) =
+      (y.mode.toNat : Int) * 32 + y.dayOfWeek * 4 + (if y.advance then 2 else 0) + (if y.addDay then 1 else 0) :=
+  flags_eq y.mode y.dayOfWeek y.advance y.addDay h0 h7
+
+/-- sequencing of an emission and a continuation that is itself an emission from the state reached -/
+theorem emit_then (st : WS) (a : R Bytes) (k : WS → R (Unit × WS)) (kb : R Bytes)
+    (hk : ∀ s : WS, s.pool = st.pool → k s = emit s kb) :
+    (emit st a >>= fun p => k p.2) = emit st (a >>= fun x => kb >>= fun y => .ok (x ++ y)) :=
+  emit_bind st a k kb (fun _ => hk _ rfl)
+
+/-- `_ZoneYearOffset._write(writer)` appends the model's `writeYearOffset` -/
+theorem gen_YearOffset_write_eq (st : WS) (y : ZoneYearOffset) (h0 : 0 ≤ y.dayOfWeek) (h7 : y.dayOfWeek ≤ 7) :
+    Gen.C14W.YearOffset.write st y = emit st (writeYearOffset y) := by
+  unfold Gen.C14W.YearOffset.write writeYearOffset
+  rw [flags_gen y h0 h7, gen_Writer_writeByte_eq]
+  dsimp only [Gen.C14W.YearOffset.timeOfDay, ltTickOfDay]
+  obtain ⟨out, pool⟩ := st
+  rcases h1 : writeByte ((y.mode.toNat : Int) * 32 + y.dayOfWeek * 4 + (if y.advance = true then 2 else 0) + (if y.addDay = true then 1 else 0)) with e1 | f
+  · rfl
+  · simp only [emit_ok, ok_bind]
+    rw [gen_Writer_writeCount_eq]
+    rcases h2 : writeCount y.monthOfYear with e2 | mm
+    · rfl
+    · simp only [emit_ok, ok_bind]
+      rw [gen_Writer_writeSignedCount_eq]
+      rcases h3 : writeSignedCount y.dayOfMonth with e3 | dd
+      · rfl
+      · simp only [emit_ok, ok_bind]
+        rcases h4 : pyTdiv y.timeOfDay NPT with e4 | ticks
+        · rfl
+        · simp only [ok_bind]
+          rcases h5 : pyTdiv ticks 10000 with e5 | ms
+          · rfl
+          · simp only [ok_bind]
+            rw [gen_Writer_writeMilliseconds_eq]
+            rcases h6 : writeMilliseconds ms with e6 | tt
+            · rfl
+            · simp only [emit_ok, ok_bind, List.append_assoc]
+
+/-- the pool is untouched by `_ZoneYearOffset._write` -/
+theorem emit_pool (st : WS) (r : R Bytes) (u : Unit) (s : WS) (h : emit st r = .ok (u, s)) : s.pool = st.pool := by
+  cases r with
+  | error e => cases h
+  | ok b => simp only [emit_ok] at h; cases h; rfl
+
+def YoOK (y : ZoneYearOffset) : Prop := 0 ≤ y.dayOfWeek ∧ y.dayOfWeek ≤ 7
+
+/-- `_ZoneRecurrence._write(writer)` appends the model's `writeRecurrence` (and leaves the pool it leaves) -/
+theorem gen_Recurrence_write_eq (st : WS) (z : ZoneRecurrence) (hy : YoOK z.yearOffset) :
+    Gen.C14W.Recurrence.write st z = emitP st (writeRecurrence st.pool z) := by
+  unfold Gen.C14W.Recurrence.write writeRecurrence
+  dsimp only [Gen.C14W.Recurrence.name, Gen.C14W.Recurrence.savings, Gen.C14W.Recurrence.yearOffset, Gen.C14W.Recurrence.fromYear, Gen.C14W.Recurrence.toYear]
+  rw [gen_Writer_writeString_eq]
+  obtain ⟨out, pool⟩ := st
+  rcases h1 : writeString pool z.name with e1 | ⟨n, p1⟩
+  · rfl
+  · simp only [emitP_ok, ok_bind]
+    rw [gen_Writer_writeOffset_eq]
+    rcases h2 : writeOffset z.savings with e2 | sv
+    · rfl
+    · simp only [emit_ok, ok_bind]
+      rw [gen_YearOffset_write_eq _ z.yearOffset hy.1 hy.2]
+      rcases h3 : writeYearOffset z.yearOffset with e3 | yo
+      · rfl
+      · simp only [emit_ok, ok_bind]
+        rw [gen_Writer_writeCount_eq]
+        have hmax : max z.fromYear 0 = (if z.fromYear < 0 then 0 else z.fromYear) := by
+          by_cases h : z.fromYear < 0
+          · rw [if_pos h]; omega
+          · rw [if_neg h]; omega
+        rw [hmax]
+        rcases h4 : writeCount (if z.fromYear < 0 then 0 else z.fromYear) with e4 | fy
+        · rfl
+        · simp only [emit_ok, ok_bind]
+          rw [gen_Writer_writeCount_eq]
+          rcases h5 : writeCount z.toYear with e5 | ty
+          · rfl
+          · simp only [emit_ok, ok_bind, emitP_ok, List.append_assoc]
+
+/-- `_StandardDaylightAlternatingMap._write(writer)` appends the model's `writeAlternatingMap` -/
+theorem gen_AltMap_write_eq (st : WS) (m : AlternatingMap) (hs : YoOK m.standardRecurrence.yearOffset) (hd : YoOK m.dstRecurrence.yearOffset) :
+    Gen.C14W.AltMap.write st m = emitP st (writeAlternatingMap st.pool m) := by
+  unfold Gen.C14W.AltMap.write writeAlternatingMap
+  dsimp only [Gen.C14W.Recurrence.name, Gen.C14W.Recurrence.savings, Gen.C14W.Recurrence.yearOffset]
+  rw [gen_Writer_writeOffset_eq]
+  obtain ⟨out, pool⟩ := st
+  rcases h1 : writeOffset m.standardOffset with e1 | so
+  · rfl
+  · simp only [emit_ok, ok_bind]
+    rw [gen_Writer_writeString_eq]
+    rcases h2 : writeString pool m.standardRecurrence.name with e2 | ⟨sn, p1⟩
+    · rfl
+    · simp only [emitP_ok, ok_bind]
+      rw [gen_YearOffset_write_eq _ _ hs.1 hs.2]
+      rcases h3 : writeYearOffset m.standardRecurrence.yearOffset with e3 | sy
+      · rfl
+      · simp only [emit_ok, ok_bind]
+        rw [gen_Writer_writeString_eq]
+        rcases h4 : writeString p1 m.dstRecurrence.name with e4 | ⟨dn, p2⟩
+        · rfl
+        · simp only [emitP_ok, ok_bind]
+          rw [gen_YearOffset_write_eq _ _ hd.1 hd.2]
+          rcases h5 : writeYearOffset m.dstRecurrence.yearOffset with e5 | dy
+          · rfl
+          · simp only [emit_ok, ok_bind]
+            rw [gen_Writer_writeOffset_eq]
+            rcases h6 : writeOffset m.dstRecurrence.savings with e6 | sv
+            · rfl
+            · simp only [emit_ok, ok_bind, emitP_ok, List.append_assoc]
+
+example : YoOK ⟨.wall, 3, -1, 7, false, 3600000000000, false⟩ := by unfold YoOK; decide
+
 end Pyoda.GenAgree.C14W
